@@ -52,7 +52,11 @@ type kvElection struct {
 
 	watcherRunning atomic.Bool
 
-	wg sync.WaitGroup
+	// wg counts the goroutines of the current run. Every run gets a WaitGroup of
+	// its own (Start installs it): a stop call that gave up waiting leaves its
+	// Wait behind on the old one, and a WaitGroup must not be reused before a
+	// previous Wait has returned. Guarded by mu; goroutines capture the pointer.
+	wg *sync.WaitGroup
 
 	ctx    context.Context
 	cancel context.CancelFunc
@@ -99,6 +103,7 @@ func newKVElection(nc JetStreamProvider, cfg ElectionConfig) (*kvElection, error
 		nc:  nc,
 		kv:  kv,
 		key: cfg.Group,
+		wg:  &sync.WaitGroup{},
 	}
 
 	e.isLeader.Store(false)
@@ -213,6 +218,7 @@ func (e *kvElection) Start(ctx context.Context) error {
 	}
 
 	e.ctx, e.cancel = context.WithCancel(ctx)
+	e.wg = &sync.WaitGroup{}
 
 	// "If the context is cancelled, the election will stop gracefully": the
 	// loops end with the context, but a leader's claim has to be given up as
@@ -257,9 +263,10 @@ func (e *kvElection) Start(ctx context.Context) error {
 		)...,
 	)
 
-	e.wg.Add(1)
+	wg := e.wg
+	wg.Add(1)
 	go func() {
-		defer e.wg.Done()
+		defer wg.Done()
 		if err := e.attemptAcquire(); err != nil {
 			e.recordAcquireAttempt("failed")
 			e.recordFailure(classifyErrorType(err))
@@ -488,15 +495,16 @@ func (e *kvElection) becomeLeader(token string, rev uint64) {
 	termCtx, termCancel := context.WithCancel(e.ctx)
 	e.termCancel = termCancel
 
-	e.wg.Add(1)
+	wg := e.wg
+	wg.Add(1)
 	go func() {
-		defer e.wg.Done()
+		defer wg.Done()
 		e.heartbeatLoop(termCtx)
 	}()
 
-	e.wg.Add(1)
+	wg.Add(1)
 	go func() {
-		defer e.wg.Done()
+		defer wg.Done()
 		e.validationLoop(termCtx)
 	}()
 
@@ -508,9 +516,9 @@ func (e *kvElection) becomeLeader(token string, rev uint64) {
 		)
 		promoteCtx, cancel := context.WithCancel(termCtx)
 		onPromote := e.onPromote
-		e.wg.Add(1)
+		wg.Add(1)
 		go func() {
-			defer e.wg.Done()
+			defer wg.Done()
 			defer func() {
 				if r := recover(); r != nil {
 					log := e.getLogger()
@@ -640,7 +648,8 @@ func (e *kvElection) becomeFollower() bool {
 
 	if e.ctx != nil && !e.watcherRunning.Load() {
 		e.watcherRunning.Store(true)
-		e.wg.Add(1)
+		wg := e.wg
+		wg.Add(1)
 		watchCtx := e.ctx
 		go func() {
 			defer func() {
@@ -649,7 +658,7 @@ func (e *kvElection) becomeFollower() bool {
 					e.watcherRunning.Store(false)
 				}
 			}()
-			defer e.wg.Done()
+			defer wg.Done()
 			e.watchLoop(watchCtx)
 		}()
 	}
@@ -683,6 +692,14 @@ func (e *kvElection) endCancelledRun(run context.Context) {
 	e.notifyDemoted("context_cancelled")
 }
 
+// runWG returns the WaitGroup of the current run, for callers that do not hold
+// the election mutex.
+func (e *kvElection) runWG() *sync.WaitGroup {
+	e.mu.RLock()
+	defer e.mu.RUnlock()
+	return e.wg
+}
+
 // notifyDemoted runs the OnDemote callback after becomeFollower reported that
 // a leadership term has ended.
 func (e *kvElection) notifyDemoted(reason string) {
@@ -710,6 +727,7 @@ func (e *kvElection) Stop() error {
 	}
 
 	wasLeader := e.isLeader.Load()
+	wg := e.wg
 
 	currentState := StateInit
 	if s := e.state.Load(); s != nil {
@@ -757,7 +775,7 @@ func (e *kvElection) Stop() error {
 
 	done := make(chan struct{})
 	go func() {
-		e.wg.Wait()
+		wg.Wait()
 		close(done)
 	}()
 
@@ -782,6 +800,7 @@ func (e *kvElection) StopWithContext(ctx context.Context, opts StopOptions) erro
 	}
 
 	wasLeader := e.isLeader.Load()
+	wg := e.wg
 
 	currentState := StateInit
 	if s := e.state.Load(); s != nil {
@@ -832,7 +851,7 @@ func (e *kvElection) StopWithContext(ctx context.Context, opts StopOptions) erro
 
 	done := make(chan struct{})
 	go func() {
-		e.wg.Wait()
+		wg.Wait()
 		close(done)
 	}()
 
